@@ -106,7 +106,8 @@ pub fn random_strategy(tier: Tier, few_keys: bool) -> BS<Case> {
             cfg.tx.max_common = 4;
             cfg.tx.big_counts = !few_keys;
             cfg.tx.max_value = 2_100_000_000_000_000 / 4;
-            cfg.tx.src = prop_oneof![10 => any::<u16>().prop_map(Src::Known), 2 => (60_000u16..=u16::MAX).prop_map(Src::Known), 1 => (any::<u8>(), 0u32..3).prop_map(|(s, i)| Src::Unknown(s, i))].boxed();
+            // null / half-null outpoints in any input position: a transaction that merely starts with a coinbase-shaped input still spends through its other inputs
+            cfg.tx.src = prop_oneof![20 => any::<u16>().prop_map(Src::Known), 4 => (60_000u16..=u16::MAX).prop_map(Src::Known), 2 => (any::<u8>(), 0u32..3).prop_map(|(s, i)| Src::Unknown(s, i)), 2 => Just(Src::Null), 1 => prop_oneof![Just(0u32), Just(0xffff_fffeu32)].prop_map(Src::ZeroTxid), 1 => any::<u8>().prop_map(|s| Src::Unknown(s, 0xffff_ffff))].boxed();
             cfg.time = gen::monotonic_time();
             let huge = proptest::option::weighted(0.2, (10_000_000_000_000_000_000u64..=16_000_000_000_000_000_000u64, 1u8..=3, any::<[u16; 3]>(), 0u8..5, any::<u8>()));
             (gen::chain(&cfg), proptest::option::weighted(0.35, any::<u16>()), proptest::option::weighted(0.35, any::<u16>()), huge).prop_map(move |(mut chain, start_sel, end_sel, huge)| {
